@@ -323,3 +323,17 @@ Theorem C09_counter_shifted : forall size flags riars j k,
   nth k (riar_update size flags riars) 0 = nth (j + k) riars 0 + 1.
 Proof. exact (@riar_update_shifted). Qed.
 Print Assumptions C09_counter_shifted.
+
+(* (3g) avoid_restarts: at every iteration >= maxiter (also after the extra sweeps), a step that leaves
+   AdaptivityBase.determine_restart neither restarted nor told to continue has (e_tol <= err) = false *)
+Theorem C09_avoid_restarts_accept : forall T (N : num T) c avoid iter maxiter more order e rho,
+  maxiter <= iter ->
+  adapt_decide N c avoid iter maxiter more order e rho false false = (false, false) ->
+  nleb N (c_e_tol c) e = false.
+Proof. exact (@avoid_restarts_accept). Qed.
+Print Assumptions C09_avoid_restarts_accept.
+
+Theorem C09_step_done_not_continue : forall iter maxiter force_done fc,
+  step_done iter maxiter force_done fc = true -> fc = false.
+Proof. exact (@step_done_not_continue). Qed.
+Print Assumptions C09_step_done_not_continue.
